@@ -26,7 +26,7 @@ def check(rep, model, tier):
     impl, ctx = E.run(model, 'detect_bursts_cycles', dict(bd, **{fn.params[0]: S}))
     spec, _ = E.spec('labels_cycles', dict(bd, S=S))
     if impl is None or impl[0] != 'table':
-        rep.unresolved('LABEL-DEF', 'table', site, f'result is not a table: {T.brief(impl) if impl else None}')
+        rep.violation('LABEL-DEF', 'table', site, expected='the input table with an is_burst column', found=T.brief(impl, 200) if impl else 'no value is returned on this path (raises)')
     else:
         cols = dict(impl[1])
         rep.compare('LABEL-DEF', 'is_burst', site, cols.get('is_burst', ('missing', 'is_burst')), spec, ctx.unmodelled)
